@@ -34,9 +34,11 @@ class C10(Prop):
     budgets = {"quick": 200, "thorough": 4000}
 
     def cases(self, rng: random.Random, tier: str) -> Iterable[dict]:
+        forced = 4
         while True:
-            if rng.random() < 0.5:
-                c = gen.gen_map_node(rng, force=rng.choice([None, None, "raise-multi", "continue-fail"]))
+            if forced or rng.random() < 0.5:
+                c = gen.gen_map_node(rng, force="product-order" if forced else rng.choice([None, None, None, "raise-multi", "continue-fail", "product-order"]))
+                forced = max(0, forced - 1)
                 yield {"kind": "node", "program": c["program"], "values": c["values"], "cfg": c.get("cfg", {}),
                        "runner": rng.choice(["sync", "async"]), "k": rng.choice([None, 1, 2, 3]), "seed": rng.randint(0, 10**6)}
             else:
